@@ -32,7 +32,9 @@ class Scenario:
     def snap(self):
         tty = json.dumps(termios.tcgetattr(self.slave), default=lambda b: list(b))
         tid = self.tty_ids.setdefault(tty, len(self.tty_ids))
-        nb = int(bool(fcntl.fcntl(self.slave, fcntl.F_GETFL) & os.O_NONBLOCK))
+        # every file status flag F_SETFL can change (0 / 1 when only O_NONBLOCK is involved, as before)
+        fl = fcntl.fcntl(self.slave, fcntl.F_GETFL)
+        nb = int(bool(fl & os.O_NONBLOCK)) + 2 * (fl & (os.O_APPEND | getattr(os, "O_ASYNC", 0) | getattr(os, "O_NOATIME", 0)))
         h = signal.getsignal(signal.SIGINT)
         sid = self.sig_ids.setdefault(id(h), len(self.sig_ids))
         wake = 0
@@ -66,6 +68,14 @@ class Scenario:
         if init.get("nb"):
             fl = fcntl.fcntl(self.slave, fcntl.F_GETFL)
             fcntl.fcntl(self.slave, fcntl.F_SETFL, fl | os.O_NONBLOCK)
+        if init.get("fl0"):
+            # other file status flags already set on the stream: O_ASYNC, O_NOATIME, O_APPEND
+            extra = [getattr(os, "O_ASYNC", 0), getattr(os, "O_NOATIME", 0), os.O_APPEND, getattr(os, "O_ASYNC", 0) | os.O_APPEND][init["fl0"] - 1]
+            fl = fcntl.fcntl(self.slave, fcntl.F_GETFL)
+            try:
+                fcntl.fcntl(self.slave, fcntl.F_SETFL, fl | extra)
+            except OSError:
+                pass
         if init.get("rawish"):
             a = termios.tcgetattr(self.slave)
             a[3] |= termios.ECHO | termios.ICANON
@@ -327,13 +337,17 @@ class C12(TraceCheck):
             "FullscreenWindow (hide_cursor), CursorAwareWindow (hide_cursor, keep_last_line), Cbreak, Nonblocking, Termmode (asked to set what tcgetattr reports / ECHO+ICANON off / that with control characters written as ints); "
             "bodies of renders, requests, thread-safe/scheduled triggers; normal exit or an exception after every prefix; renders that raise part-way (a row that is no string; a foreign exception landing at the n-th line executed inside render_to_terminal), the exception then leaving the contexts; "
             "two Inputs open with the outer one asked; a SIGINT handler of the application's own installed inside an Input; repeated enter/exit; a real SIGINT sent from another thread during a blocked request (KeyboardInterrupt with "
-            "sigint_event off, SigIntEvent with it on); main and non-main thread; initial O_NONBLOCK off/on and two initial "
+            "sigint_event off, SigIntEvent with it on); main and non-main thread; initial O_NONBLOCK off/on, O_ASYNC / O_NOATIME / O_APPEND preset, and two initial "
             "tty settings. After every step: termios attributes, O_NONBLOCK, SIGINT handler, signal wake-up fd, number of open "
             "fds and the terminal tokens. Sources: TLC behaviours from Ctx.tla (exhaustive to depth 4 + simulation) + "
             "hand-written scenario families. distinct_nontrivial = distinct (stack of kinds/options, step) pairs")
     assumptions = ("at most one window context at a time", "a KeyboardInterrupt landing inside __enter__/__exit__ is out of scope",
                    "process-global state is reset by the harness between scenarios")
     exhaustive = {"quick": False, "thorough": False}
+
+    def prepare(self, tier):
+        # scenarios with O_ASYNC preset make the kernel send SIGIO when input arrives: the harness process ignores it
+        signal.signal(signal.SIGIO, signal.SIG_IGN)
 
     def design_runs(self, tier):
         runs = []
@@ -443,6 +457,15 @@ class C12(TraceCheck):
                         yield [init, E("Input", sigint=1), OP("request"), OP("stray_sigint"), end]
                         yield [init, E("Input", sigint=1), OP("stray_sigint"), OP("stray_sigint"), OP("request"), end]
                         yield [init, E("Cbreak"), E("Input", sigint=1, nostart=1), OP("request_key"), OP("stray_sigint"), end, X]
+                # other file status flags set on the stream before anything is entered
+                for f0 in (1, 2, 3, 4):
+                    i2 = dict(init, fl0=f0)
+                    for end in (X, R):
+                        yield [i2, E("Input"), OP("request_key"), OP("request"), end]
+                        yield [i2, E("Nonblocking"), end]
+                    yield [i2, E("Input", sigint=1, nostart=1), OP("request_paste"), X]
+                    yield [i2, E("CursorAware", hide=1), OP("render"), X]
+                    yield [i2, E("Cbreak"), E("Nonblocking"), X, X]
                 # the calling thread has SIGINT (and SIGWINCH) blocked before anything is entered
                 for m0 in (1, 2):
                     im = dict(init, mask0=m0)
